@@ -72,7 +72,9 @@ pub fn run_c08(a: &Args) {
         let mut plan = plan;
         // keep-alive traffic and noise while routing, so that frames are in flight when adapters complete
         plan.pre_info = if rng.chance(1, 2) { vec![Step::Tick, Step::KeepAlive(Echo::Last), Step::Frame(b::plugin_message())] } else { vec![] };
-        plan.routing = vec![Step::Tick, Step::KeepAlive(Echo::Last), Step::AdapterDone, Step::Frame(b::resource_pack_response(5, 1)), Step::AdapterDone, Step::Tick, Step::KeepAlive(Echo::Last), Step::AdapterDone];
+        // one packet the configuration phase ignores per routing stage, while the adapter call of that stage is still pending
+        let ign = |rng: &mut Rng| match rng.below(4) { 0 => b::plugin_message(), 1 => b::client_info(b"zz_ZZ"), 2 => b::config_cookie_response(), _ => b::resource_pack_response(5, 1) };
+        plan.routing = vec![Step::Tick, Step::KeepAlive(Echo::Last), Step::Frame(ign(&mut rng)), Step::AdapterDone, Step::Frame(ign(&mut rng)), Step::AdapterDone, Step::Tick, Step::KeepAlive(Echo::Last), Step::Frame(ign(&mut rng)), Step::AdapterDone];
         let v = routed_verdicts(&mut rng, &plan, true);
         let mut base = scenario(&mut rng, &plan, secret.clone(), vec![], v);
         base.steps = render(&plan, secret.is_some());
@@ -84,7 +86,28 @@ pub fn run_c08(a: &Args) {
         for vi in 0..variants {
             let mut sc = base.clone();
             let class;
-            match if vi % 11 == 7 { 6 } else { vi % 6 } {
+            match if vi % 11 == 7 { 6 } else if vi % 11 == 8 { 7 } else if vi % 11 == 9 { 8 } else { vi % 6 } {
+                7 => { // an ignored packet arrives just AFTER the adapter completion it used to precede
+                    class = "completion-swapped";
+                    let mut steps = base.steps.clone();
+                    let mut i = 0;
+                    while i + 1 < steps.len() {
+                        if matches!(steps[i], Step::Frame(_)) && matches!(steps[i + 1], Step::AdapterDone) && i > 6 && rng.chance(2, 3) { steps.swap(i, i + 1); i += 2; } else { i += 1; }
+                    }
+                    sc.steps = steps;
+                }
+                8 => { // the client pauses across a tick before Login Acknowledged / before Client Information (answering what it is sent)
+                    class = "tick-in-pause";
+                    let mut steps = vec![];
+                    for st in &base.steps {
+                        if let Step::Frame(p) = st {
+                            if *p == b::login_ack() && rng.chance(1, 2) { steps.push(Step::Tick); }
+                            else if p.first() == Some(&0) && p.len() > 8 && steps.iter().any(|x| matches!(x, Step::Frame(q) if *q == b::login_ack())) && !steps.iter().any(|x| matches!(x, Step::AdapterDone)) && rng.chance(2, 3) { steps.push(Step::Tick); steps.push(Step::KeepAlive(Echo::Last)); }
+                        }
+                        steps.push(st.clone());
+                    }
+                    sc.steps = steps;
+                }
                 6 => { // coalesced: every run of consecutive frames goes out in one write (a new run starts at the
                        // Encryption Response, which needs the server's token first)
                     class = "coalesced";
@@ -151,7 +174,7 @@ pub fn run_c08(a: &Args) {
             let mut why = vec![];
             // reference for the variants that move an event in front of a frame: the unsegmented run
             // with that frame-level order
-            let cref = if vi % 11 == 7 { c0.clone() } else if vi % 6 == 3 || vi % 6 == 4 {
+            let cref = if vi % 11 == 7 || vi % 11 == 8 || vi % 11 == 9 { c0.clone() } else if vi % 6 == 3 || vi % 6 == 4 {
                 let mut r = sc.clone();
                 r.steps = sc.steps.iter().flat_map(|s| match s { Step::Seg { inner, events, .. } => { let mut v: Vec<Step> = events.iter().map(|e| e.1.clone()).collect(); v.push((**inner).clone()); v } other => vec![other.clone()] }).collect();
                 let ro = exec(&r);
@@ -162,7 +185,9 @@ pub fn run_c08(a: &Args) {
                 r.steps = sc.steps.iter().filter(|s| !matches!(s, Step::Throttle(_))).cloned().collect();
                 canon(&exec(&r))
             } else { c0.clone() };
-            let cgot = canon(&o);
+            // a pause across ticks adds Keep Alive exchanges and shifts the later ones; nothing else may change
+            let strip = |c: &str| c.split(';').filter(|e| !e.starts_with("send:keepAlive:")).collect::<Vec<_>>().join(";");
+            let (cgot, cref) = if vi % 11 == 9 { (strip(&canon(&o)), strip(&cref)) } else { (canon(&o), cref) };
             if cgot != cref {
                 let a: Vec<&str> = cgot.split(';').collect();
                 let b: Vec<&str> = cref.split(';').collect();
